@@ -45,7 +45,7 @@ def ascii_unarmor(text):
     if m['hashes'] is not None:
         m['hashes'] = m['hashes'].split(',')
     if m['headers'] is not None:
-        m['headers'] = collections.OrderedDict(re.findall('^(?P<key>.+): (?P<value>.+?)\\r?$\\n?', m['headers'], flags=re.MULTILINE))
+        m['headers'] = collections.OrderedDict(re.findall('^(?P<key>.+?): (?P<value>.+?)\\r?$\\n?', m['headers'], flags=re.MULTILINE))
     if m['body'] is not None:
         try:
             m['body'] = bytearray(base64.b64decode(m['body'].encode()))
@@ -297,8 +297,9 @@ HEADER_SETS = [
     [('Comment', 'https://example.org/x?y=1:2'), ('Charset', 'utf-8'), ('Hash', 'SHA256')],
     [('X', 'y'), ('A-very-long-key-name-with-dashes-0123456789', 'v' * 200)],
     [('Key with spaces', 'value:colon'), ('K:', ':v')],
+    [('Comment', 'Note: colon-space inside the value: twice'), ('Version', '1')],
 ]
-# header sets whose reading differs from the writing (characterised in Props/C10.v: C10_headers_refuted)
+# header sets outside the property's domain (key with ": ", value ending in CR): only model = implementation is checked
 ODD_HEADER_SETS = [
     [('Comment', 'Note: colon-space inside the value')],
     [('Comment', 'ends with CR\r')],
@@ -330,6 +331,21 @@ def _run(ctx, pgpy, d):
     check_pins(ctx, pgpy)
     Blob = make_blob_class(Armorable)
     rng = ctx.rng
+
+    # ---- 0. regression corpus: witnesses of repaired defects (known_findings.json, kind=fixed) run first ----
+    for e in getattr(ctx, 'fixed', []):
+        w = e.get('witness', {})
+        if 'header' not in w:
+            continue
+        k_, v_ = w['header'].split(': ', 1)
+        s = str(Blob(b'regression payload', 'MESSAGE', [(k_, v_)]))
+        v = s.replace('\n', '\r\n') if w.get('transport') == 'CRLF' else s
+        got = impl_unarmor(Armorable, PGPError, v)
+        case = {'op': 'unarmor', 'text': v.encode('latin-1').hex(), 'as': 'str', 'hdrs': [[k_, v_]]}
+        ctx.case('regression', e['key'], sample={'key': e['key'], 'witness': w, 'result': got[:70]})
+        if not got.startswith('OK') or got.split(' ')[2] != hdr_arg([(k_, v_)]):
+            ctx.fail('regression', 'repaired defect is back: ' + e.get('what', e['key']), case)
+        ctx.expect_eq('regression', 'ascii_unarmor differs from model unarmor', case, got, d.call('unarmor', hx(v.encode('latin-1'))))
 
     # ---- 1. base64 / CRC-24 / str() on payload sweeps ----
     lens = payload_lengths(ctx)
@@ -373,14 +389,18 @@ def _run(ctx, pgpy, d):
     b_b64.flush(); b_crc.flush(); b_arm.flush(); b_un.flush()
     ctx.exhaustive.append('payload lengths %s x {all-zero, all-FF, random}' % ('1..3000' if not ctx.quick else '1..149 and 150..3000 step 47 (all residues mod 3 and mod 48)'))
 
-    # ---- 2. header sets that do not read back as written (model must agree with the implementation on them too) ----
+    # ---- 2. header sets: reading back what was written (property oracle) + model correspondence on the odd ones ----
     for hs in ODD_HEADER_SETS + HEADER_SETS:
         p = bytes(rng.randrange(256) for _ in range(rng.randrange(1, 100)))
         s = str(Blob(p, 'MESSAGE', hs))
         for vn, v in variants(ctx, s):
             got = impl_unarmor(Armorable, PGPError, v)
             ctx.case('unarmor-headers', (tuple(hs), vn), sample={'headers': hs, 'variant': vn, 'result': got[:80]})
-            b_un.add('unarmor ' + hx(v.encode('latin-1')), got, {'op': 'unarmor', 'text': v.encode('latin-1').hex(), 'as': 'str'})
+            case = {'op': 'unarmor', 'text': v.encode('latin-1').hex(), 'as': 'str'}
+            b_un.add('unarmor ' + hx(v.encode('latin-1')), got, case)
+            in_domain = all('\r' not in v_ and ': ' not in k_ for k_, v_ in hs)      # RFC 4880 6.2 keys, values without CR
+            if in_domain and (not got.startswith('OK') or got.split(' ')[2] != (hdr_arg(hs) if hs else 'N')):
+                ctx.fail('unarmor-headers', 'supplied armor headers do not read back', dict(case, hdrs=hs, got=got[:200]))
     b_un.flush()
 
     # ---- 3. every single-character corruption of the body and CRC lines of short payloads ----
@@ -475,7 +495,7 @@ def check_armor_text(ctx, s, magic, hs, p, case):
     else:
         try:
             label, hdrs, payload, crc = ref_dearmor(s)
-            if label != magic or payload != p or crc != ref_crc24(p) or hdrs != [tuple(kv) for kv in hs if ': ' not in kv[1]] and all(': ' not in kv[1] and ': ' not in kv[0] for kv in hs):
+            if label != magic or payload != p or crc != ref_crc24(p) or (hdrs != [tuple(kv) for kv in hs] and all(': ' not in kv[0] for kv in hs)):
                 bad = 'independent RFC 4880 decoder does not recover label / payload / reference CRC'
         except Exception as ex:
             bad = 'independent RFC 4880 decoder refuses the armor (%s)' % type(ex).__name__
@@ -653,6 +673,9 @@ def replay(ctx, case):
             if op == 'corrupt' and got.startswith('OK'):
                 f = got.split(' '); p = bytes.fromhex(case['p'])
                 return f[5] != '1' and not (unhx(f[3]) == p and unhn(f[4]) == ref_crc24(p))
+            if op == 'unarmor' and 'hdrs' in case and 'p' not in case:
+                hs = [tuple(x) for x in case['hdrs']]
+                return not got.startswith('OK') or got.split(' ')[2] != (hdr_arg(hs) if hs else 'N')
             if op == 'unarmor' and 'p' in case:
                 hs = [tuple(x) for x in case['hdrs']]
                 return got != 'OK %s %s %s %s 0 N' % (hx(case['magic'].encode()), hdr_arg(hs) if hs else 'N', hx(bytes.fromhex(case['p'])), hn(ref_crc24(bytes.fromhex(case['p']))))
